@@ -48,6 +48,14 @@ reg("C04", "exploration",
     BASE_NOTE + "Inner-trait conversions modelled from the documentation (Int via __index__, Float via __float__/__index__).",
     "DESIGN.md 3/C04")
 
+reg("C03", "exploration",
+    "differential testing: compiled ctrait.validate vs the handler's Python validate over an exhaustive (configuration x value lattice) grid and Hypothesis-generated nested compounds; compound law against alternatives validated alone",
+    "Every configuration carrying a fast-validation descriptor (and Either/Trait(...)/Tuple compounds of them) is run over the "
+    "whole ~150-value lattice on one trait object in two orders (exhaustive inside that grid); generated nested compounds add "
+    "spec-derived values. Acceptance, stored value and exact type are compared between the two paths, and each compound with "
+    "its alternatives validated alone. Absence outside the grid/lattice is not shown.",
+    BASE_NOTE + "The Python-level validate method is the reference, as the statement says.", "DESIGN.md 3/C03")
+
 
 def main():
     props = [json.loads(l) for l in open(os.path.join(ROOT, "properties.jsonl"))]
